@@ -51,6 +51,13 @@ pub fn run_seq(chk: &SeqCheck, rep: &mut Report, n: u64) {
             part.add("operations", tr.recs.len() as u64);
             hseq::kind_cells(&tr, &mut cells);
             let (fds, nontrivial) = (chk.judge)(&tr, &mut part);
+            if prop != "C06" {
+                if let Some(r) = tr.recs.iter().find(|r| matches!(r.res, hseq::HRes::Overrun)) {
+                    // not this property's subject (C06 judges termination): the rest of the
+                    // history was not explored
+                    part.inconclusive(format!("[{} case {}] {} exceeded the step budget; history cut short", cfg.name, i, r.op.describe()));
+                }
+            }
             if nontrivial {
                 part.distinct.insert(tr.hash());
             }
